@@ -70,6 +70,23 @@ def trace_oracle(case):
     return bad
 
 
+def seq_trace_oracle(case):
+    """the same property on a sequential history of the full cache interface (stores, tag writes, nonexistence marks,
+    reads and reopenings in between): only a release or the expiry frees a claim"""
+    bad = []
+    holder = {}
+    for i, (o, s) in enumerate(zip(case['in']['ops'], case['out']['steps'])):
+        if o['op'] == 'claim':
+            key = (o['reg'], o['name'])
+            if s['ret'] is True:
+                if key in holder and not (o['now'] - holder[key] > T):
+                    bad.append((i, f'claim on {key} succeeded at {o["now"]} while the claim taken at {holder[key]} was neither released nor expired'))
+                holder[key] = o['now']
+        elif o['op'] == 'release':
+            holder.pop((o['reg'], o['name']), None)
+    return bad
+
+
 def progress_oracle(case):
     """an attempt that runs uninterrupted on a key that is unknown, free or expired must succeed"""
     bad = []
@@ -119,6 +136,9 @@ def run(tier, seed):
     # single-handle histories with the boundary instants (shared with C08's stream)
     seq, err = C.run_harness('cache-seq', seed + 9, 60 if tier == 'quick' else 1500, {'steps': 40}, timeout=3000)
     badseq = L.run_corr(rep, PID, seq or [], tag='seq')
+    for c in seq or []:
+        for (i, msg) in seq_trace_oracle(c)[:1]:
+            rep.violation(f'claim protocol violated: {msg}', {'history': c['in']['ops'][:i + 1], 'step': i, 'impl': c['out']['steps'][i]['ret']})
     for i, step in sorted(badseq.items())[:2]:
         rep.broke('correspondence cache model vs real Cache (sequential claims)', {'history_prefix': seq[i]['in']['ops'][:step + 1]})
     nsteps = sum(len(c['in']['ops']) for c in cases)
